@@ -482,14 +482,15 @@ func (r *runner) finish() *mismatch {
 			if err := vh.AssertNextTsAboveAll(r.db); err != nil {
 				return &mismatch{"reopen.nextTsNotAboveStored", err.Error()}
 			}
+			// the same two assertions after DB.Load of a full backup into a fresh directory (taken before the
+			// probe commit below, so that the newest version of the backup may be a deletion marker)
+			if m := r.loadProbe(); m != nil {
+				return m
+			}
 			if err := vh.CommitProbeAboveAll(r.db, r.key(1), []byte("probe-value")); err != nil {
 				return &mismatch{"reopen.probeCommit", err.Error()}
 			}
 			r.stats["probe"]++
-			// the same two assertions after DB.Load of a full backup into a fresh directory
-			if m := r.loadProbe(); m != nil {
-				return m
-			}
 		}
 	}
 	if r.opt.scan && !r.c.inmem {
